@@ -250,6 +250,41 @@ func (x *Exec) Count(k string, n int) {
 // OnCleanup registers a function run (LIFO) after Final.
 func (x *Exec) OnCleanup(f func()) { x.cleanup = append(x.cleanup, f) }
 
+// Choose is a scenario-owned choice among n alternatives, all of cost 0: the
+// explorer enumerates every one of them at every deviation level (used to
+// enumerate application scripts / configurations inside ONE scenario, so that
+// a family of generated scripts shares a worker pool). Call it from Setup
+// only, before any thread is declared, and always in the same order.
+func (x *Exec) Choose(what string, n int) int {
+	names := make([]string, n)
+	for i := range names {
+		names[i] = fmt.Sprint(i)
+	}
+	return x.ChooseOf(what, names)
+}
+
+// ChooseOf is Choose with named alternatives (the names appear in schedules
+// and violation artefacts as "what=name").
+func (x *Exec) ChooseOf(what string, names []string) int {
+	n := len(names)
+	labels := make([]string, n)
+	for i := range labels {
+		labels[i] = what + "=" + names[i]
+	}
+	choice := 0
+	pi := len(x.res.Points)
+	if pi < len(x.job.Prefix) {
+		choice = x.job.Prefix[pi]
+		if choice >= n || (pi < len(x.job.Labels) && labels[choice] != x.job.Labels[pi]) {
+			x.res.Diverged = true
+			choice = 0
+		}
+	}
+	x.res.Points = append(x.res.Points, explore.Point{Labels: labels, Costs: make([]int, n), Chosen: choice})
+	x.Logf("choose %d: %s", pi, labels[choice])
+	return choice
+}
+
 // Elapsed is the virtual time since the execution began.
 func (x *Exec) Elapsed() time.Duration { return time.Since(x.start) }
 
